@@ -2011,14 +2011,27 @@ def _handle_assignment_ast(
             vars_env[name] = evaluated_values[idx]
             if name not in declared:
                 declared.add(name)
-                nodes.append(
-                    VarDecl(
-                        name=name,
-                        c_type=_cpp_type(inferred_types[idx]),
-                        expr=tmp_names[idx],
-                        global_scope=False,
+                if is_global_scope:
+                    # a new top-level name must stay visible to loop() and helpers
+                    cpp_type = _cpp_type(inferred_types[idx])
+                    globals_list.append(
+                        VarDecl(
+                            name=name,
+                            c_type=cpp_type,
+                            expr=_default_value_for_type(cpp_type),
+                            global_scope=True,
+                        )
                     )
-                )
+                    nodes.append(VarAssign(name=name, expr=tmp_names[idx]))
+                else:
+                    nodes.append(
+                        VarDecl(
+                            name=name,
+                            c_type=_cpp_type(inferred_types[idx]),
+                            expr=tmp_names[idx],
+                            global_scope=False,
+                        )
+                    )
             else:
                 nodes.append(VarAssign(name=name, expr=tmp_names[idx]))
 
